@@ -78,7 +78,8 @@ def cases(tier):
             for depth in (1, 2, 3):
                 for form in ('rel', 'lead', 'bare', 'lead-double-slash'):
                     yield ('Dsym', role, base, depth, form)
-        for how in ('literal', 'literal-with-option', 'string-symbol', 'string-symbol-with-option', 'string-symbol-lead'):
+        for how in ('literal', 'literal-with-option', 'string-symbol', 'string-symbol-with-option', 'string-symbol-lead',
+                    'path-symbol-abs-under-option-rel', 'path-symbol-abs-under-option-lead', 'path-symbol-abs-under-option-chain'):
             yield ('Dabs', role, how)
     # a path symbol smuggled into a path-to-create through a STRING symbol (every symbol a path component is built from must be a string)
     for role in DEST_ROLES:
@@ -454,6 +455,17 @@ def _dabs(res, case, w, seam):
     elif how == 'string-symbol-with-option':
         pre = ["def string ABS = '%s'" % target]
         psrc = '-rel-tmp @[ABS]@'
+    elif how.startswith('path-symbol-abs-under-option'):
+        # a PATH symbol defined with a legal relativity option and an absolute constant suffix IS an absolute path (its relativity is "absolute")
+        pre = ['def path OUT = -rel-tmp %s' % str(w.home / 'ah')]
+        if how.endswith('-rel'):
+            psrc = '-rel OUT escaped'
+        elif how.endswith('-lead'):
+            psrc = '@[OUT]@/escaped'
+        else:
+            pre += ['def path OUT2 = -rel OUT sub', 'def path OUT3 = @[OUT2]@/deeper']
+            psrc = '-rel OUT3 escaped'
+            target = str(w.home / 'ah' / 'sub' / 'deeper' / 'escaped')
     else:
         pre = ["def string ABS = '%s'" % str(w.home / 'ah'), 'def path PA = @[ABS]@/sub']
         psrc = '-rel PA escaped'
